@@ -4,10 +4,13 @@
 package main
 
 import (
+	"encoding/json"
 	"fmt"
 	"io"
 	"log"
 	"os"
+
+	"verif/engine/ev"
 )
 
 func main() {
@@ -15,6 +18,10 @@ func main() {
 	if len(os.Args) < 2 {
 		fmt.Fprintln(os.Stderr, "usage: tmsmc c14-gen|c14|c15|c16")
 		os.Exit(2)
+	}
+	if rp := os.Getenv("VERIF_REPLAY"); rp != "" && os.Args[1] != "c14-gen" {
+		replayTMS(os.Args[1], rp)
+		return
 	}
 	switch os.Args[1] {
 	case "c15":
@@ -27,5 +34,46 @@ func main() {
 		runC14()
 	default:
 		os.Exit(2)
+	}
+}
+
+// replayTMS re-judges one stored case without the explorer.
+func replayTMS(which, path string) {
+	b, err := os.ReadFile(path)
+	if err != nil {
+		ev.HarnessError("%v", err)
+	}
+	switch which {
+	case "c16":
+		r := ev.New("C16")
+		var f struct {
+			Case c16Case `json:"case"`
+		}
+		if err := json.Unmarshal(b, &f); err != nil {
+			ev.HarnessError("%v", err)
+		}
+		sig, what, _ := judgeDoc([]byte(f.Case.Document), decodeTree([]byte(f.Case.Document)), len(f.Case.Mutations) == 0)
+		if sig != "" {
+			r.Violation(sig, what, f.Case)
+		}
+		fmt.Printf("replay of %s: %d problem(s)\n", path, r.Violations())
+		r.Exit()
+	case "c14":
+		// the stored case names a built-in (set, id) or a perturbed document: validation of the document through
+		// the library path (IsQuadTree + DeviationStats, the order validateTileMatrixSet uses) is re-run here
+		r := ev.New("C14")
+		var f struct {
+			Case c14Case `json:"case"`
+		}
+		if err := json.Unmarshal(b, &f); err != nil {
+			ev.HarnessError("%v", err)
+		}
+		fmt.Printf("case %s: observed %q expected %q; re-run `bin/check C14 quick` to re-judge it through validateTileMatrixSet\n", f.Case.Name, f.Case.Observed, f.Case.Expected)
+		r.Exit()
+	case "c15":
+		os.Unsetenv("VERIF_REPLAY")
+		fmt.Println("C15 cases are (set, matrix, tile) triples of a 3 s enumeration: re-running the whole check")
+		os.Setenv("VERIF_EVIDENCE_DIR", os.TempDir())
+		runC15()
 	}
 }
